@@ -31,54 +31,6 @@ def Inv (i : Inst) : Prop := PortsWF i ∧ AtMostOneSlave i.ports ∧ NoMasterOn
 
 /-! ### the BMCA run -/
 
-theorem stepAnnounceAge_sameRole (p p1 : Port) (step : Int) (h : p.stepAnnounceAge step = .ok p1) : SameRole p p1 := by
-  unfold Port.stepAnnounceAge at h
-  split at h
-  · cases h
-  · simp only [Except.ok.injEq] at h
-    rw [← h]
-    exact ⟨rfl, rfl, rfl, (stepAge_own _ _).1, rfl⟩
-
-theorem bmcaAge_spec (step : Int) : ∀ (order : List Nat) (ports ports' : List Port),
-    bmcaAge step order ports = .ok ports' →
-    ports'.length = ports.length ∧
-    ∀ (j : Nat) (p : Port), ports[j]? = some p → ∃ p', ports'[j]? = some p' ∧ SameRole p p' := by
-  intro order
-  induction order with
-  | nil =>
-    intro ports ports' h
-    simp only [bmcaAge, Except.ok.injEq] at h
-    subst h
-    exact ⟨rfl, fun j p hp => ⟨p, hp, sameRole_refl p⟩⟩
-  | cons k rest ih =>
-    intro ports ports' h
-    simp only [bmcaAge] at h
-    cases hk : portAt ports k with
-    | none => rw [hk] at h; exact ih ports ports' h
-    | some p0 =>
-      rw [hk] at h
-      simp only [bind, Except.bind] at h
-      cases hs : p0.stepAnnounceAge step with
-      | error e => rw [hs] at h; cases h
-      | ok p1 =>
-        rw [hs] at h
-        simp only at h
-        obtain ⟨k1, hkl, hkg⟩ := portAt_some hk
-        obtain ⟨a1, a2⟩ := ih (setPort ports k p1) ports' h
-        have hlen : (setPort ports k p1).length = ports.length := by simp [setPort]
-        have hsr := stepAnnounceAge_sameRole p0 p1 step hs
-        refine ⟨a1.trans hlen, ?_⟩
-        intro j p hp
-        have hg := getElem?_setPort ports k p1 j k1 hkl
-        by_cases hjk : j + 1 = k
-        · rw [if_pos hjk] at hg
-          have hj : j = k - 1 := by omega
-          rw [hj, hkg] at hp; cases hp
-          obtain ⟨p', hp', hsr'⟩ := a2 j p1 hg
-          exact ⟨p', hp', sameRole_trans hsr hsr'⟩
-        · rw [if_neg hjk] at hg
-          exact a2 j p (by rw [hg]; exact hp)
-
 /-- what a BMCA run does to every port: identity and configuration stay; a port is Slave afterwards
 only if it was recommended S1 for the Ebest of this run (or was not passed to the run at all) -/
 def AfterBmca (dflt : DefaultDS) (ebest : Option Best) (lbs : List (Nat × Option Best)) (order : List Nat)
